@@ -844,3 +844,59 @@ def _feed_ok(self, data):
 
 
 c.ens("bits-most-significant-first-skip-drops-the-rest-of-the-byte-eofb-stops", _feed_ok)
+
+
+# -- PDFStream accessors (C03, C18, C10): decoded data is produced by decode() once and then kept; the stored bytes are a separate accessor; attribute lookups
+#    by the first present name, in the order given ----------------------------------------------------------------------------------------------------------
+def _decode_effect(I, bound):
+    o = bound["self"]
+    o.f["data"] = o.f["_decoded"]
+    o.f["rawdata"] = None
+
+
+_dec = stub("pdfminer.pdftypes:PDFStream.decode", ["self"]); _dec.effect = _decode_effect
+for _state in ("fresh", "decoded"):
+    c = contract("pdfminer.pdftypes:PDFStream.get_data#%s" % _state, props=["C03", "C18", "C10"])
+    c.param("self", T.Obj("pdfminer.pdftypes:PDFStream", _decoded=T.Bytes(), rawdata=T.Bytes() if _state == "fresh" else T.Const(None),
+                          data=T.Const(None) if _state == "fresh" else T.Bytes(), attrs=T.Const({"Length": 3})))
+    c.skip_cross = True
+    c.stubs = {"pdfminer.pdftypes:PDFStream.decode": _dec}
+    c.mod("self.data").mod("self.rawdata")
+    if _state == "fresh":
+        c.ens("decodes-once-and-returns-the-decoded-bytes", lambda self, result, trace: len(trace) == 1 and result is self._decoded and self.data is self._decoded)
+    else:
+        c.ens("already-decoded-data-returned-as-is-no-second-decode", lambda self, old, result, trace: len(trace) == 0 and result is old.self.data and self.data is old.self.data)
+
+c = contract("pdfminer.pdftypes:PDFStream.get_rawdata", props=["C03", "C18"])
+c.param("self", T.Obj("pdfminer.pdftypes:PDFStream", rawdata=T.Bytes(), data=T.Const(None), attrs=T.Const({"Length": 3})))
+c.skip_cross = True
+c.inline = True
+c.ens("the-stored-bytes-untouched", lambda self, old, result: result is old.self.rawdata)
+
+
+class _Attrs(T.Sort):
+    KEYS = ("F", "Filter", "DP", "DecodeParms", "FDecodeParms", "Length")
+    def fresh(self, ctx, name):
+        present = [k for k in self.KEYS if ctx.choose([False, True], "has-" + k)]
+        return {k: "value-of-" + k for k in present}
+    def sample(self, rng):
+        return None
+    def from_model(self, ev, v):
+        return sorted(v)
+
+
+c = contract("pdfminer.pdftypes:PDFStream.get_any", props=["C03", "C18"])
+c.param("self", T.Obj("pdfminer.pdftypes:PDFStream", attrs=_Attrs())).param("names", T.OneOf(("F", "Filter"), ("DP", "DecodeParms", "FDecodeParms"), ("Width", "W"), ()))
+c.param("default", T.Const("the-default"))
+c.skip_cross = True
+c.inline = True
+c.ens("first-present-name-in-the-given-order-else-the-default", lambda self, names, default, result: (
+    result == next(("value-of-" + n for n in names if n in self.attrs), default)))
+
+c = contract("pdfminer.pdftypes:PDFStream.set_objid", props=["C10", "C02"])
+c.param("self", T.Obj("pdfminer.pdftypes:PDFStream", objid=T.Const(None), genno=T.Const(None), rawdata=T.Bytes(), data=T.Const(None)))
+c.param("objid", T.Int(1, 10 ** 6)).param("genno", T.Int(0, 65535))
+c.skip_cross = True
+c.inline = True
+c.mod("self.objid").mod("self.genno")
+c.ens("number-and-generation-recorded-for-the-per-object-key", lambda self, objid, genno: And(eq(self.objid, objid), eq(self.genno, genno)))
